@@ -367,6 +367,24 @@ def ctxGenFinish (cid : CtxId) (x : Ctx) (fid : Nat) (next : Option TaskId) : Ct
         let (x'', os) := resumeWaiters cid x' p.waiters
         (x'', .task p.task [registeredVal x' p.key] :: (evs ++ os))
 
+/-- A suspended `get_resource` call (identified by its task label `lid`) is cancelled by its caller.
+If it is the lookup that called the factory, the generation is abandoned: the entry is removed and
+the lookups that waited for it look again (the first to run calls the factory itself; `next` as in
+`ctxGenFinish`). If it is one of the waiting lookups, it just leaves the queue. Either way the
+cancelled call ends with the cancellation and changes nothing else. -/
+def ctxCancelGet (cid : CtxId) (x : Ctx) (lid : TaskId) (next : Option TaskId) : Ctx × List Out :=
+  match x.pending.find? (fun p => p.task = lid) with
+  | some p0 =>
+    let ws := wakeOrder next p0.waiters
+    let x := { x with pending := x.pending.filter fun q => q.fid ≠ p0.fid }
+    let (x', os) := resumeWaiters cid x ws
+    (x', .task lid [.raisedExc .cancelled] :: os)
+  | Option.none =>
+    if x.pending.any (fun p => p.waiters.any (fun w => w.1 = lid)) then
+      ({ x with pending := x.pending.map fun p => { p with waiters := p.waiters.filter (fun w => w.1 ≠ lid) } },
+       [.task lid [.raisedExc .cancelled]])
+    else (x, [.badOp])
+
 /-- `Context.get_resources(type)`: static table only, keyed by name (later entries of the
 same name win, as in the dict comprehension). -/
 def ctxGetAll (x : Ctx) (ty : TypeId) : List (String × Val) :=
@@ -559,6 +577,7 @@ inductive Op
   | getNowait (c : CtxId) (k : Key) (optional : Bool)
   | get (t : TaskId) (c : CtxId) (k : Key) (optional : Bool)
   | genFinish (c : CtxId) (fid : Nat) (next : Option TaskId)
+  | cancelGet (c : CtxId) (lid : TaskId) (next : Option TaskId)   -- a suspended lookup is cancelled by its caller
   | getAll (c : CtxId) (ty : TypeId)
   | addTeardown (c : CtxId) (cb : Cb) (callable : Bool)
   | current (t : TaskId)
@@ -655,6 +674,7 @@ def step (w : World) : Op → World × List Out
   | .getNowait c k opt => onCtx w c (fun x => ctxGetNowait c x k opt)
   | .get t c k opt => onCtx w c (fun x => ctxGet c x t k opt)
   | .genFinish c fid next => onCtx w c (fun x => ctxGenFinish c x fid next)
+  | .cancelGet c lid next => onCtx w c (fun x => ctxCancelGet c x lid next)
   | .getAll c ty =>
     match w.ctx? c with
     | Option.none => (w, [.badOp])
